@@ -117,6 +117,8 @@ structure St where
   regop : Nat := 0
   rm : Nat := 0
   haveMem : Bool := false
+  haveSIB : Bool := false
+  sibBase : Nat := 0
   memBase : Nat := 0          -- mem.Base as a Reg number
   displen : Nat := 0
   dispoff : Nat := 0
@@ -203,59 +205,66 @@ def baseRegFor : Sz → Nat
 def pushOpcode (s : St) (b : Nat) : St :=
   if s.osh8 ≥ 8 then { s with opcode := s.opcode ||| (b <<< (s.osh8 - 8)), osh8 := s.osh8 - 8 } else s
 
-/-- decode.go:451-586: read and decode ModR/M (32/64-bit address form) -/
-def readModrm (src : Bytes) (P : Pfx) (s : St) : Except Res St :=
+/-- decode.go:452-471, 500: the ModR/M byte itself -/
+def modrmHead (src : Bytes) (P : Pfx) (s : St) : Except Res St :=
   if s.haveModrm then .error { err := .internal, len := s.pos }            -- :452
   else if h : s.pos < src.length then
     let modrm := (src[s.pos]).toNat
     let s := pushOpcode { s with haveModrm := true, modrm := modrm, pos := s.pos + 1 } modrm
     let mod_ := modrm >>> 6
     let regop := if P.rex &&& 0x04 ≠ 0 then ((modrm >>> 3) &&& 7) ||| 8 else (modrm >>> 3) &&& 7
-    let rm := modrm &&& 7
-    let s := { s with mod_ := mod_, regop := regop, rm := rm, haveMem := mod_ != 3 }
-    -- SIB
-    let sibR : Except Res (St × Bool × Nat) :=
-      if rm = 4 ∧ mod_ ≠ 3 then
-        if h2 : s.pos < src.length then
-          let sib := (src[s.pos]).toNat
-          let s := pushOpcode { s with pos := s.pos + 1 } sib
-          let base0 := sib &&& 7
-          let base := if P.rex &&& 0x01 ≠ 0 ∨ (P.vex = 0xC4 ∧ P.vexB1 &&& 0x20 = 0) then base0 ||| 8 else base0
-          let s := if base &&& 7 = 5 ∧ mod_ = 0 then s else { s with memBase := (baseRegFor P.am + base) % 256 }
-          .ok (s, true, base)
-        else .error (truncated src)
-      else
-        let rm' := if P.rex &&& 0x01 ≠ 0 then rm ||| 8 else rm
-        let s := { s with rm := rm' }
-        let s := if (mod_ = 0 ∧ rm' &&& 7 = 5) ∨ rm' &&& 7 = 4 then s
-                 else if mod_ ≠ 3 then { s with memBase := (baseRegFor P.am + rm') % 256 } else s
-        .ok (s, false, 0)
-    match sibR with
+    .ok { s with mod_ := mod_, regop := regop, rm := modrm &&& 7, haveMem := mod_ != 3 }
+  else .error (truncated src)                                               -- :456
+
+/-- decode.go:504-548: SIB byte, or REX.B on rm; sets mem.Base -/
+def modrmSib (src : Bytes) (P : Pfx) (s : St) : Except Res St :=
+  if s.rm = 4 ∧ s.mod_ ≠ 3 then
+    if h2 : s.pos < src.length then
+      let sib := (src[s.pos]).toNat
+      let s := pushOpcode { s with pos := s.pos + 1, haveSIB := true } sib
+      let base0 := sib &&& 7
+      let base := if P.rex &&& 0x01 ≠ 0 ∨ (P.vex = 0xC4 ∧ P.vexB1 &&& 0x20 = 0) then base0 ||| 8 else base0
+      if base &&& 7 = 5 ∧ s.mod_ = 0 then .ok { s with sibBase := base }
+      else .ok { s with sibBase := base, memBase := (baseRegFor P.am + base) % 256 }
+    else .error (truncated src)
+  else
+    let rm' := if P.rex &&& 0x01 ≠ 0 then s.rm ||| 8 else s.rm
+    if (s.mod_ = 0 ∧ rm' &&& 7 = 5) ∨ rm' &&& 7 = 4 then .ok { s with rm := rm' }
+    else if s.mod_ ≠ 3 then .ok { s with rm := rm', memBase := (baseRegFor P.am + rm') % 256 }
+    else .ok { s with rm := rm' }
+
+/-- decode.go:551-559 disp32 -/
+def modrmDisp32 (src : Bytes) (s : St) : Except Res St :=
+  if (s.mod_ = 0 ∧ (s.rm &&& 7 = 5 ∨ (s.haveSIB = true ∧ s.sibBase &&& 7 = 5))) ∨ s.mod_ = 2 then
+    if s.pos + 4 > src.length then .error (truncated src)
+    else .ok { s with dispoff := s.pos, displen := 4, pos := s.pos + 4 }
+  else .ok s
+
+/-- decode.go:562-570 disp8 -/
+def modrmDisp8 (src : Bytes) (s : St) : Except Res St :=
+  if s.mod_ = 1 then
+    if s.pos ≥ src.length then .error (truncated src)
+    else .ok { s with dispoff := s.pos, displen := 1, pos := s.pos + 1 }
+  else .ok s
+
+/-- decode.go:574-580: mod=0 rm=5 is PC-relative in 64-bit mode -/
+def modrmRip (P : Pfx) (s : St) : St :=
+  if s.mod_ = 0 ∧ s.rm &&& 7 = 5 then { s with memBase := if P.am = .s32 then regEIP else regRIP } else s
+
+/-- decode.go:451-586: read and decode ModR/M (32/64-bit address form) -/
+def readModrm (src : Bytes) (P : Pfx) (s : St) : Except Res St :=
+  match modrmHead src P s with
+  | .error r => .error r
+  | .ok s =>
+    match modrmSib src P s with
     | .error r => .error r
-    | .ok (s, haveSIB, base) =>
-      -- disp32 (:551)
-      let d32 : Except Res St :=
-        if (s.mod_ = 0 ∧ (s.rm &&& 7 = 5 ∨ (haveSIB ∧ base &&& 7 = 5))) ∨ s.mod_ = 2 then
-          if s.pos + 4 > src.length then .error (truncated src)
-          else .ok { s with dispoff := s.pos, displen := 4, pos := s.pos + 4 }
-        else .ok s
-      match d32 with
+    | .ok s =>
+      match modrmDisp32 src s with
       | .error r => .error r
       | .ok s =>
-        -- disp8 (:562)
-        let d8 : Except Res St :=
-          if s.mod_ = 1 then
-            if s.pos ≥ src.length then .error (truncated src)
-            else .ok { s with dispoff := s.pos, displen := 1, pos := s.pos + 1 }
-          else .ok s
-        match d8 with
+        match modrmDisp8 src s with
         | .error r => .error r
-        | .ok s =>
-          -- :574 RIP-relative
-          if s.mod_ = 0 ∧ s.rm &&& 7 = 5 then
-            .ok { s with memBase := if P.am = .s32 then regEIP else regRIP }
-          else .ok s
-  else .error (truncated src)                                               -- :456
+        | .ok s => .ok (modrmRip P s)
 
 /-- `inst.Args[narg] = a; narg++` — index out of range is a Go panic -/
 def putArg (s : St) (reg : Nat) (next : Nat) : Step :=
